@@ -1,4 +1,4 @@
-SPECIFICATION SpecThm
+SPECIFICATION Spec
 CONSTANTS
   NV = 5
   Heavy = FALSE
